@@ -40,7 +40,7 @@ FileTok(f) == IF f = "" THEN "<none>" ELSE f
 ExpectedPos(c, cfg) ==
   LET pt == cfg.pt IN
   CASE pt.t = "At" /\ N(c)[pt.n].k = "switch" -> {<<N(c)[pt.n].h.line, N(c)[pt.n].h.col>>}
-    [] pt.t = "Mc" -> {<<N(c)[pt.n].line, N(c)[pt.n].col>>, <<N(c)[pt.n].cases[pt.j].h.line, N(c)[pt.n].cases[pt.j].h.col>>}
+    [] pt.t = "Mc" -> {<<N(c)[pt.n].cases[pt.j].cline, N(c)[pt.n].cases[pt.j].ccol>>, <<N(c)[pt.n].cases[pt.j].h.line, N(c)[pt.n].cases[pt.j].h.col>>}
     [] OTHER -> {SPos(c, cfg)}
 NodeOf(cfg) == cfg.pt.n
 EntryOk(c, cfg, o, fr) ==
